@@ -17,9 +17,11 @@ MANIFEST = dict(
 
 
 def _impl_objects():
+    """object 'a' = an async protocol, 's' = a threaded socket, 'b' / 't' = a SECOND connection of each kind (the counters are
+    per connection: a second object must start its own cycles and never disturb the first)"""
     from geckolib.driver.async_udp_protocol import GeckoAsyncUdpProtocol
     from geckolib.driver.udp_socket import GeckoUdpSocket
-    return GeckoAsyncUdpProtocol(None, None), GeckoUdpSocket()
+    return {"a": GeckoAsyncUdpProtocol(None, None), "s": GeckoUdpSocket(), "b": GeckoAsyncUdpProtocol(None, None), "t": GeckoUdpSocket()}
 
 
 def _sequences(ctx):
@@ -33,6 +35,12 @@ def _sequences(ctx):
     for j in range(3 if ctx.quick else 12):
         m = 4000 if ctx.quick else 30000
         seqs.append((f"random-{j}", [(ctx.rng.choice("as"), ctx.rng.random() < 0.4) for _ in range(m)]))
+    # two connections of the same kind in one process (a second spa, or the new object a reconnect builds): each has its own cycles
+    seqs.append(("second-connection", [("a", False)] * 93 + [("a", True)] * 7 + [("s", False)] * 93 + [("s", True)] * 7
+                 + [("b", False), ("b", True), ("t", False), ("t", True)] * 3 + [("a", False), ("s", False), ("a", True), ("s", True)]))
+    for j in range(2 if ctx.quick else 8):
+        m = 3000 if ctx.quick else 30000
+        seqs.append((f"random-two-connections-{j}", [(ctx.rng.choice("asbt"), ctx.rng.random() < 0.4) for _ in range(m)]))
     return seqs
 
 
@@ -46,10 +54,10 @@ def search_counters(ctx, seqs):
     """direct oracle on the real objects: range, successor, independence of the two objects and kinds"""
     states = set()
     for label, ops in seqs:
-        a, s = _impl_objects()
-        last = {("a", True): 191, ("a", False): 0, ("s", True): 191, ("s", False): 0}
+        objs = _impl_objects()
+        last = {(o_, k_): (191 if k_ else 0) for o_ in objs for k_ in (True, False)}
         for i, (o, k) in enumerate(ops):
-            obj = a if o == "a" else s
+            obj = objs[o]
             try:
                 r = obj.get_and_increment_sequence_counter(k)
             except Exception as e:  # noqa
@@ -63,7 +71,7 @@ def search_counters(ctx, seqs):
                               exp, r)
                 return
             last[(o, k)] = r
-            states.add((o, obj._sequence_counter_protocol, obj._sequence_counter_command))
+            states.add((o, last[(o, False)], last[(o, True)]))      # (object, last protocol number, last command number) - from results only
             ctx.count("evaluations")
     ctx.cov["distinct_counter_states_visited"] = len(states)
 
@@ -71,11 +79,11 @@ def search_counters(ctx, seqs):
 def correspondence(ctx, seqs):
     lines, impl = [], []
     for label, ops in seqs:
-        a, s = _impl_objects()
+        objs = _impl_objects()
         lines.append("reset")
         impl.append("ok")
         for o, k in ops:
-            obj = a if o == "a" else s
+            obj = objs[o]
             lines.append(f"{o} {'t' if k else 'f'}")
             try:
                 impl.append(str(obj.get_and_increment_sequence_counter(k)))
@@ -268,7 +276,10 @@ def _paused_schedules(start, kind_a, kind_b, wait=0.05):
     k = 0
     while k < 40:
         s = GeckoUdpSocket()
-        s._sequence_counter_protocol, s._sequence_counter_command = start
+        for _ in range(start[0]):                       # reach the start state through the public method only
+            s.get_and_increment_sequence_counter(False)
+        for _ in range(start[1] - 191):
+            s.get_and_increment_sequence_counter(True)
         paused, resume = threading.Event(), threading.Event()
         seen = {"n": 0, "line": None}
         res = {}
@@ -315,7 +326,12 @@ def _paused_schedules(start, kind_a, kind_b, wait=0.05):
         resume.set()
         ta.join(5)
         tb.join(5)
-        yield seen["line"], b_blocked, res.get("a"), res.get("b"), (s._sequence_counter_protocol, s._sequence_counter_command)
+        # the counters afterwards, observed through one more call of each kind (minus that call)
+        try:
+            fin = (s.get_and_increment_sequence_counter(False), s.get_and_increment_sequence_counter(True))
+        except Exception as e:  # noqa
+            fin = (f"raised {type(e).__name__}",) * 2
+        yield seen["line"], b_blocked, res.get("a"), res.get("b"), fin
         k += 1
 
 
@@ -338,6 +354,7 @@ def search_thread_schedules(ctx):
                 else:
                     ok = ra == _succ(ka, x[ka]) and rb == _succ(kb, x[kb])
                     exp_fin = (_succ(False, start[0]), _succ(True, start[1]))
+                exp_fin = (_succ(False, exp_fin[0]), _succ(True, exp_fin[1]))       # `fin` is what the NEXT call of each kind returns
                 if not ok or fin != exp_fin:
                     ctx.violation(f"threads:schedule:{'cmd' if ka else 'proto'}+{'cmd' if kb else 'proto'}:pause-at-line+{line}",
                                   {"kind": "thread-schedule", "start": list(start), "kind_a": ka, "kind_b": kb, "pause_line_offset": line},
